@@ -23,7 +23,7 @@ NOTES = {
            'the two recognised decorator kinds. API-level glue (which table is consulted, what is marked, copied, sorted, caught) is decided by bounded abstract execution on stub collaborators (sa/api_model.py): exact for the enumerated scenarios, not a proof for all inputs.',
     'C07': 'Not decided: agreement with importlib on concrete trees beyond the modelled file systems (get_module: every exists() probe forks; list_packages: one modelled tree with importlib\'s suffix table and non-identifier file names). API-level glue (which table is consulted, what is marked, copied, sorted, caught) is decided by bounded abstract execution on stub collaborators (sa/api_model.py): exact for the enumerated scenarios, not a proof for all inputs.',
     'C08': 'Trusted: frozen table of raising stdlib calls. Not decided: exceptions raised by stdlib calls outside the table, '
-           'stack depth. API-level glue (which table is consulted, what is marked, copied, sorted, caught) is decided by bounded abstract execution on stub collaborators (sa/api_model.py): exact for the enumerated scenarios, not a proof for all inputs.',
+           'stack depth. The field-coverage part of R3 decides that every child field is handed on by the visit method, not that what receives it traverses it. API-level glue (which table is consulted, what is marked, copied, sorted, caught) is decided by bounded abstract execution on stub collaborators (sa/api_model.py): exact for the enumerated scenarios, not a proof for all inputs.',
     'C09': 'Not decided: equality of complete answers after a concrete edit history (the module cache itself is explored over all histories up to length 3/5); mtime granularity; deletion/shadowing. API-level glue (which table is consulted, what is marked, copied, sorted, caught) is decided by bounded abstract execution on stub collaborators (sa/api_model.py): exact for the enumerated scenarios, not a proof for all inputs.',
     'C10': 'Interpretation: "parameter of a method" = parameter of a def or lambda whose enclosing scope is a class body. Not '
            'decided: whether `used` is set for the right bindings (C02), the "never read in the file" premise. API-level glue (which table is consulted, what is marked, copied, sorted, caught) is decided by bounded abstract execution on stub collaborators (sa/api_model.py): exact for the enumerated scenarios, not a proof for all inputs.',
@@ -36,7 +36,7 @@ NOTES = {
     'C15': 'Trusted: multiprocessing.connection message framing. Not decided: equality of remote and in-process results, '
            'ordering under concurrent callers, multi-MiB payloads (C14 covers the length formats). API-level glue (which table is consulted, what is marked, copied, sorted, caught) is decided by bounded abstract execution on stub collaborators (sa/api_model.py): exact for the enumerated scenarios, not a proof for all inputs.',
     'C16': 'Trusted: threading.Lock/Thread.join semantics; an own write between two reads re-establishes the value. Not '
-           'decided: deadlock freedom with real processes, OS-level Listener/Client behaviour, launch time-outs. API-level glue (which table is consulted, what is marked, copied, sorted, caught) is decided by bounded abstract execution on stub collaborators (sa/api_model.py): exact for the enumerated scenarios, not a proof for all inputs.',
+           'decided: deadlock freedom with real processes, OS-level Listener/Client behaviour, launch time-outs; R7 decides only that interpreter exit waits for the starter (it is not a daemon thread), not what the operating system does with the child. API-level glue (which table is consulted, what is marked, copied, sorted, caught) is decided by bounded abstract execution on stub collaborators (sa/api_model.py): exact for the enumerated scenarios, not a proof for all inputs.',
     'C17': 'Trusted: lists built by ast visitors / position-ordered insertion are deterministic; '
            'Not decided: equality of the outputs of two concrete processes. API-level glue (which table is consulted, what is marked, copied, sorted, caught) is decided by bounded abstract execution on stub collaborators (sa/api_model.py): exact for the enumerated scenarios, not a proof for all inputs.',
 }
